@@ -406,6 +406,20 @@ static void* zalloc(void*, uInt count, uInt size) { return allocate(count * size
 
 static void zfree(void*, void* ptr) { free_allocation(ptr); }
 
+// OASIS PATH records only have flush, half-width and explicit end extensions:
+// a simple path with any other end type keeps its shape only as polygons
+template <class PathType>
+static bool oasis_path_record(const PathType* path) {
+    if (!path->simple_path) return false;
+    for (uint64_t ne = 0; ne < path->num_elements; ne++) {
+        const EndType end_type = path->elements[ne].end_type;
+        if (end_type != EndType::Flush && end_type != EndType::HalfWidth &&
+            end_type != EndType::Extended)
+            return false;
+    }
+    return true;
+}
+
 ErrorCode Library::write_oas(const char* filename, double circle_tolerance,
                              uint8_t compression_level, uint16_t config_flags) {
     ErrorCode error_code = ErrorCode::NoError;
@@ -509,7 +523,7 @@ ErrorCode Library::write_oas(const char* filename, double circle_tolerance,
                 FlexPath* path = *flexpath_p++;
                 len = max_string_length(path->properties);
                 if (len > string_max) string_max = len;
-                if (path->simple_path) {
+                if (oasis_path_record(path)) {
                     if (path->spine.point_array.count > 1) {
                         tmp_array.count = 0;
                         FlexPathElement* el = path->elements;
@@ -541,7 +555,7 @@ ErrorCode Library::write_oas(const char* filename, double circle_tolerance,
                 RobustPath* path = *robustpath_p++;
                 len = max_string_length(path->properties);
                 if (len > string_max) string_max = len;
-                if (path->simple_path) {
+                if (oasis_path_record(path)) {
                     if (path->subpath_array.count > 0) {
                         tmp_array.count = 0;
                         RobustPathElement* el = path->elements;
@@ -647,7 +661,7 @@ ErrorCode Library::write_oas(const char* filename, double circle_tolerance,
         FlexPath** flexpath_p = cell->flexpath_array.items;
         for (uint64_t j = cell->flexpath_array.count; j > 0; j--) {
             FlexPath* path = *flexpath_p++;
-            if (path->simple_path) {
+            if (oasis_path_record(path)) {
                 err = path->to_oas(out, state);
                 if (err != ErrorCode::NoError) error_code = err;
             } else {
@@ -671,7 +685,7 @@ ErrorCode Library::write_oas(const char* filename, double circle_tolerance,
         RobustPath** robustpath_p = cell->robustpath_array.items;
         for (uint64_t j = cell->robustpath_array.count; j > 0; j--) {
             RobustPath* path = *robustpath_p++;
-            if (path->simple_path) {
+            if (oasis_path_record(path)) {
                 err = path->to_oas(out, state);
                 if (err != ErrorCode::NoError) error_code = err;
             } else {
